@@ -13,7 +13,7 @@ const EQUIV_TAGS: &[&str] = &["OUTCOME", "EARLY-STOP", "ERRSPAN", "OVERREAD", "P
 // ------------------------------------------------------------------------------------ C10
 
 const C10_CHARS: &[char] = &[
-    '\\', '.', '+', '*', '?', '(', ')', '|', '[', ']', '{', '}', '^', '$', '#', '&', '-', '~', ' ', 'k', 'K', 's', 'S', 'é', 'É', 'ß', 'ſ', '\u{212A}', 'σ', 'ς', 'Σ', '€',
+    '\u{1c5}', '\\', '.', '+', '*', '?', '(', ')', '|', '[', ']', '{', '}', '^', '$', '#', '&', '-', '~', ' ', 'k', 'K', 's', 'S', 'é', 'É', 'ß', 'ſ', '\u{212A}', 'σ', 'ς', 'Σ', '€',
 ];
 const C10_BYTES: &[u8] = &[b'a', b'K', 0x00, 0x7f, 0x80, 0xe9, 0xff, b'.', b'\\', b'['];
 
@@ -111,6 +111,41 @@ pub fn c10(a: &Args) -> Report {
             specs.push(s);
         }
     }
+    // ignore(case) on REGEX and SKIP patterns is the regex crate's (?i): classes whose ranges span
+    // letters although their source has no cased letter, titlecase letters, negated classes ...
+    let class_atoms: Vec<&str> = vec!["a", "[ab]", "[@-\\[]", "[^a]", "é", "\u{1c5}", "k", "\\x{212a}", "[0-9_-]", "[\\x{40}-\\x{5b}]", "ß", "[Ḁ-ỿ]", "\\p{Greek}", "[σς]"];
+    let cterms = vcore::enumerate::terms(&class_atoms, 1, &["+", "?", "{2}"], &[]);
+    for t in &cterms {
+        let src = t.render();
+        for utf8 in [true, false] {
+            for kind in [Kind::Regex, Kind::Skip] {
+                let mk = |ic: bool| {
+                    let mut p = Pat::new(kind, Lit::Str(src.clone()));
+                    p.icase = ic;
+                    let mut pats = vec![p];
+                    if kind == Kind::Skip {
+                        pats.push(Pat::token("zz"));
+                    }
+                    Spec::new(utf8, pats)
+                };
+                push_pair(&mut specs, mk(false), mk(true));
+            }
+        }
+    }
+    for src in [&b"[@-\\[]"[..], b"[\\x40-\\x5b]+", b"k\\xff", b"[^a]", b"\\xc3\\xa9"] {
+        for kind in [Kind::Regex, Kind::Skip] {
+            let mk = |ic: bool| {
+                let mut p = Pat::new(kind, Lit::Bytes(src.to_vec()));
+                p.icase = ic;
+                let mut pats = vec![p];
+                if kind == Kind::Skip {
+                    pats.push(Pat::btoken(b"zz"));
+                }
+                Spec::new(false, pats)
+            };
+            push_pair(&mut specs, mk(false), mk(true));
+        }
+    }
     run_specs(&mut rep, &a.prop, &specs, EQUIV_TAGS, true);
     // "nothing else about the definition changes"
     let obs: Vec<_> = specs.par_iter().map(|s| common::observe(s, false).1).collect();
@@ -119,7 +154,8 @@ pub fn c10(a: &Args) -> Report {
         if let (Some(g0), Some(g1)) = (&obs[p].graph, &obs[i].graph) {
             compared += 1;
             let strip = |g: &vcore::graph::Graph| g.leaves.iter().map(|l| (l.priority, l.skip, l.has_callback)).collect::<Vec<_>>();
-            if strip(g0) != strip(g1) || obs[p].accepted != obs[i].accepted {
+            // (acceptance may legitimately change: the larger language can tie with another pattern)
+            if strip(g0) != strip(g1) {
                 rep.violations.push(Violation {
                     key: format!("ICASE-CHANGES-OTHER/{}", specs[i].short()),
                     tag: "ICASE-CHANGES-OTHER".into(),
@@ -311,7 +347,7 @@ fn c10_single(_a: &Args, spec: &Spec) -> Vec<Violation> {
     let o1 = common::observe(spec, false).1;
     let strip = |g: &vcore::graph::Graph| g.leaves.iter().map(|l| (l.priority, l.skip, l.has_callback)).collect::<Vec<_>>();
     match (&o0.graph, &o1.graph) {
-        (Some(g0), Some(g1)) if strip(g0) != strip(g1) || o0.accepted != o1.accepted => vec![Violation {
+        (Some(g0), Some(g1)) if strip(g0) != strip(g1) => vec![Violation {
             key: format!("ICASE-CHANGES-OTHER/{}", spec.short()),
             tag: "ICASE-CHANGES-OTHER".into(),
             case: spec.short(),
